@@ -24,8 +24,10 @@ func verifAttackSetup(N int, maxW uint64) (*Attacker, *verifPacer, Targeter) {
 	verif_stub("time.Now", func() time.Time { return time.Unix(0, 1000) })
 	// the clock: arbitrary non-decreasing readings
 	verif_stub("time.Since", func(t time.Time) time.Duration {
+		// C04: elapsed time is measured from the instant the attack began
+		verif_assert(t.Equal(time.Unix(0, 1000)), "C04.elapsed-is-measured-from-the-start-of-the-attack")
 		e := time.Duration(verif_nondet_i64("elapsed"))
-		verif_assume(e >= pacer.clock && e < 1<<14)
+		verif_assume(e >= pacer.clock && e < time.Duration(verif_time_bound()))
 		pacer.clock = e
 		return e
 	})
@@ -81,7 +83,8 @@ func (p *verifPacer) Pace(elapsed time.Duration, hits uint64) (time.Duration, bo
 	}
 	p.paces++
 	p.wait = time.Duration(verif_nondet_i64("wait"))
-	verif_assume(p.wait > -1<<14 && p.wait < 1<<14)
+	tb := time.Duration(verif_time_bound()) // 2^14 while no constant of the code needs more than 16 bits, else 2^40
+	verif_assume(p.wait > -tb && p.wait < tb)
 	if verif_nondet_bool("pacer_stops") {
 		p.stopped = true
 		return p.wait, true
@@ -145,7 +148,8 @@ func verifAttackBMCWith(fixedMax uint64) {
 		verif_assume(a.maxWorkers == fixedMax)
 	}
 	du := time.Duration(verif_nondet_i64("duration"))
-	verif_assume(du > -1<<14 && du < 1<<14)
+	tb := time.Duration(verif_time_bound())
+	verif_assume(du > -tb && du < tb)
 	pacer.du = du
 
 	results := a.Attack(tr, pacer, du, "atk")
